@@ -21,7 +21,7 @@ func (eng *Engine) recText(pkgSuffix string, names []string) ([]string, error) {
 	}
 	st := newState()
 	q := 0
-	env := &SpecEnv{ex: ex, cur: st, vars: map[string]Val{}, pkg: pkg, qn: &q}
+	env := &SpecEnv{ex: ex, cur: st, vars: map[string]Val{}, pkg: pkg, qn: &q, exportRec: true, noUnfold: true}
 	start := ex.sc.pos()
 	var err error
 	func() {
@@ -83,7 +83,7 @@ func (eng *Engine) recText(pkgSuffix string, names []string) ([]string, error) {
 	}
 	var out []string
 	for _, l := range ex.sc.lines[start:] {
-		if strings.Contains(l, "rec_") || strings.HasPrefix(l, "(define-fun spec_") {
+		if strings.Contains(l, "rec_") || strings.HasPrefix(l, "(define-fun spec_") || strings.Contains(l, "pow2") || strings.Contains(l, "bvor_") || strings.Contains(l, "bvand_") {
 			out = append(out, l)
 		}
 	}
